@@ -124,10 +124,14 @@ class InstrumentedAsyncServer:
             elif isinstance(self.auth, list):
                 authenticated = client_auth in self.auth
             else:
-                if asyncio.iscoroutinefunction(self.auth):
-                    authenticated = await self.auth(client_auth)
-                else:
-                    authenticated = self.auth(client_auth)
+                try:
+                    if asyncio.iscoroutinefunction(self.auth):
+                        authenticated = await self.auth(client_auth)
+                    else:
+                        authenticated = self.auth(client_auth)
+                except Exception:
+                    # a callable that fails on this payload did not accept it
+                    self.sio.logger.exception('Admin authentication error')
             if not authenticated:
                 raise ConnectionRefusedError('authentication failed')
 
